@@ -24,7 +24,7 @@
 (***************************************************************************)
 EXTENDS TraceBase, Polyco
 
-VARIABLES l, nbad, full, cur, stats
+VARIABLES l, nbad, full, cur, verdict, stats
 
 (***************************************************************************)
 (* Constants of the judgement                                              *)
@@ -80,15 +80,16 @@ Row(e, rec) ==
   IN [p |-> p, sp |-> sp, tai |-> Tai(rec),
       in |-> [a |-> RAdd(sp.a, EdgeDelta), b |-> RSub(sp.b, EdgeDelta)],
       out |-> [a |-> RSub(sp.a, EdgeDelta), b |-> RAdd(sp.b, EdgeDelta)]]
-Table(rows) ==
+Table(rows, parsed, n) ==
   LET spans == [i \in 1..Len(rows) |-> rows[i].sp]
       mg == IF rows = <<>> THEN <<>> ELSE MergeOfSpans(spans)
-  IN [rows |-> rows, spans |-> spans, merged |-> mg,
+  IN [parsed |-> parsed, n |-> n,          \* the text was a polyco with n entries
+      rows |-> rows, spans |-> spans, merged |-> mg,
       mergedOut |-> [k \in 1..Len(mg) |-> [a |-> RSub(mg[k].a, EdgeDelta), b |-> RAdd(mg[k].b, EdgeDelta)]],
       \* some gap between rows is within 8.6 ns of exactly 1 ms: the merge decision is a float's
       mergeAmb |-> \E i, j \in 1..Len(rows) :
                       RClose(RSub(spans[j].a, spans[i].b), MS, MergeEdge)]
-NoTable == [rows |-> <<>>, spans |-> <<>>, merged |-> <<>>, mergedOut |-> <<>>, mergeAmb |-> FALSE]
+NoTable == [parsed |-> FALSE, n |-> 0, rows |-> <<>>, spans |-> <<>>, merged |-> <<>>, mergedOut |-> <<>>, mergeAmb |-> FALSE]
 
 \* where a UTC time lies: "in" (strictly inside some span and away from every span
 \* boundary), "out" (outside every merged interval), "edge" (within EdgeDelta of a span
@@ -118,14 +119,19 @@ PhaseDy(ph) == DyAdd(Dy(ph.i, 0), ph.f)
 \* |obs - v| <= tol, obs dyadic, v and tol Rat
 CloseDy(obs, v, tol) == RClose(DyRat(obs), v, tol)
 
-\* "ok" | "ambiguous" | "bad" for one predicted-phase sample against the rows in sel
-PhaseVerdict(tb, sel, t, obs, extra) ==
-  LET o == DyRat(obs)
-      d == [i \in sel |-> RAbs(RSub(o, Predict(tb.rows[i].p, DTof(tb.rows[i], t))))]
-  IN IF \E i \in sel : RLe(d[i], RAdd(Tol8, extra[i])) THEN "ok"
-     ELSE IF \E i \in sel : RLe(d[i], RAdd(Budget(tb.rows[i].p, DTof(tb.rows[i], t)), extra[i]))
+\* "ok" | "ambiguous" | "bad" for one predicted-phase sample against the rows in sel;
+\* fw = TRUE adds frequency * 2^-49 day (resolution of a returned Time) to the tolerance
+PhaseVerdict(tb, sel, t, obs, fw) ==
+  LET dt == [i \in sel |-> DTof(tb.rows[i], t)]
+      er == [i \in sel |-> ErrOf(obs, Predict(tb.rows[i].p, dt[i]))]
+      \* |d PHASE / d minute| 1440 2^-49 = W 2^(k-49) / q with q the denominator of Predict
+      W(i) == IF fw THEN MulInt(Abs(HornerNum(DerivCoeffs(tb.rows[i].p.a, 1), DyFrac(dt[i]).N, DyFrac(dt[i]).k)), 1440)
+              ELSE Zero
+      ws(i) == DyFrac(dt[i]).k - 49
+      extra(i) == IF fw THEN RMul(RAbs(Deriv(tb.rows[i].p, 1, dt[i])), TimeRes49s) ELSE RZero
+  IN IF \E i \in sel : ErrWithin(er[i], Tol8, W(i), ws(i)) THEN "ok"
+     ELSE IF \E i \in sel : RLe(ErrRat(er[i]), RAdd(Budget(tb.rows[i].p, dt[i]), extra(i)))
      THEN "ambiguous" ELSE "bad"
-NoExtra(sel) == [i \in sel |-> RZero]
 VerdictNames(vs, name) ==
   (IF "bad" \in vs THEN {name} ELSE {}) \cup (IF "ambiguous" \in vs THEN {"ambiguous:double-limit"} ELSE {})
 
@@ -146,37 +152,38 @@ Valued(tb, ts, out) == Kinds(tb, ts) = {"in"} /\ out.raised = ""
 (* Events                                                                  *)
 (***************************************************************************)
 \* load: the text is parsed here; the rows are the entries sorted by TMID
-ParsedRows(e) ==
+LoadTable(e) ==
   LET P == Parse(e.text)
-  IN IF ~P.ok THEN [ok |-> FALSE, rows |-> <<>>]
+  IN IF ~P.ok THEN NoTable
      ELSE LET es == SortByTmid(P.entries)
-          IN IF e.raised # "" \/ Len(e.rows) # Len(es) THEN [ok |-> TRUE, n |-> Len(es), rows |-> <<>>]
-             ELSE [ok |-> TRUE, n |-> Len(es), rows |-> [i \in 1..Len(es) |-> Row(es[i], e.rows[i])]]
-LoadFailed(e, pr) ==
-  IF ~pr.ok THEN {"ambiguous:not-a-polyco"}
+          IN IF e.raised # "" \/ Len(e.rows) # Len(es) THEN Table(<<>>, TRUE, Len(es))
+             ELSE Table([i \in 1..Len(es) |-> Row(es[i], e.rows[i])], TRUE, Len(es))
+LoadFailed(e, tb) ==
+  IF ~tb.parsed THEN {"ambiguous:not-a-polyco"}
   ELSE IF e.raised # "" THEN {"load-raised"}
-  ELSE IF Len(e.rows) # pr.n THEN {"rows"}
-  ELSE (IF \A i \in 1..pr.n : RClose(DyRat(Utc(e.rows[i])), DecRat(pr.rows[i].p.tmid), TimeRes51)
+  ELSE IF Len(e.rows) # tb.n THEN {"rows"}
+  ELSE (IF \A i \in 1..tb.n : RClose(DyRat(Utc(e.rows[i])), DecRat(tb.rows[i].p.tmid), TimeRes51)
         THEN {} ELSE {"tmid"})
-       \cup (IF \A i \in 1..pr.n : TaiOK(e.rows[i]) THEN {} ELSE {"assume-tai"})
+       \cup (IF \A i \in 1..tb.n : TaiOK(e.rows[i]) THEN {} ELSE {"assume-tai"})
 
 CallFailed(tb, e) ==
   RangeNames(tb, e.t, e.out) \cup
   (IF ~Valued(tb, e.t, e.out) THEN {}
    ELSE IF Len(e.out.ph) # Len(e.t) THEN {"shape"}
    ELSE VerdictNames({LET sel == Strict(tb, DyRat(Utc(e.t[j])))
-                      IN PhaseVerdict(tb, sel, e.t[j], PhaseDy(e.out.ph[j]), NoExtra(sel))
+                      IN PhaseVerdict(tb, sel, e.t[j], PhaseDy(e.out.ph[j]), FALSE)
                       : j \in 1..Len(e.t)}, "phase"))
 
 \* p.f0(t, n): the (n+1)-th derivative of the phase in cycle / s^(n+1)
+\*   |obs - D| <= 1e-9 |D| + 1e-12 SUM |terms|     (D and the sum have the same denominator)
 F0Verdict(tb, t, n, obs) ==
   LET sel == Strict(tb, DyRat(Utc(t)))
-      o == DyRat(obs)
   IN \E i \in sel :
         LET dt == DTof(tb.rows[i], t)
             v == Deriv(tb.rows[i].p, n + 1, dt)
             sc == DerivScale(tb.rows[i].p, n + 1, dt)
-        IN RLe(RAbs(RSub(o, v)), RAdd(RMul(Rel9, RAbs(v)), RMul(Floor12, sc)))
+            er == ErrOf(obs, v)
+        IN Le(Mul(er.L, Pow10(12)), Shl(Add(MulInt(Abs(v.p), 1000), sc.p), er.g))
 F0Failed(tb, e) ==
   RangeNames(tb, e.t, e.out) \cup
   (IF ~Valued(tb, e.t, e.out) THEN {}
@@ -193,10 +200,10 @@ PolFailed(tb, e) ==
             ref == PhaseDy(e.out.ref)
             row(i) == tb.rows[i]
             dtj(i, j) == DyAdd(DTof(row(i), e.t), Dy(e.xd[j].m, e.xd[j].e - 2))
-            d(i, j) == RAbs(RSub(DyRat(DyAdd(ref, e.out.v[j])), Predict(row(i).p, dtj(i, j))))
-        IN IF \E i \in sel : \A j \in 1..Len(e.xd) : RLe(d(i, j), Tol8) THEN {}
+            er(i, j) == ErrOf(DyAdd(ref, e.out.v[j]), Predict(row(i).p, dtj(i, j)))
+        IN IF \E i \in sel : \A j \in 1..Len(e.xd) : ErrWithin(er(i, j), Tol8, Zero, 0) THEN {}
            ELSE IF \E i \in sel : \A j \in 1..Len(e.xd) :
-                      RLe(d(i, j), RMax(Tol8, RMul(RI(2), Budget(row(i).p, dtj(i, j)))))
+                      RLe(ErrRat(er(i, j)), RMax(Tol8, RMul(RI(2), Budget(row(i).p, dtj(i, j)))))
            THEN {"ambiguous:double-limit"} ELSE {"phasepol"})
 
 \* p.time_at(phi): ValueError iff phi is outside the phase range of every merged interval;
@@ -222,11 +229,10 @@ TimeAtFailed(tb, e) ==
      ELSE IF e.out.raised # "" THEN {"inside-raised"}
      ELSE LET w == Where(tb, e.out.t)
               sel == Strict(tb, DyRat(Utc(e.out.t)))
-              fq == [i \in sel |-> RMul(RAbs(Deriv(tb.rows[i].p, 1, DTof(tb.rows[i], e.out.t))), TimeRes49s)]
           IN (IF TaiOK(e.out.t) THEN {} ELSE {"assume-tai"}) \cup
              (IF w = "edge" THEN {"ambiguous:boundary"}
               ELSE IF w # "in" THEN {"time_at"}
-              ELSE VerdictNames({PhaseVerdict(tb, sel, e.out.t, PhaseDy(e.phi), fq)}, "time_at"))
+              ELSE VerdictNames({PhaseVerdict(tb, sel, e.out.t, PhaseDy(e.phi), TRUE)}, "time_at"))
 
 \* p.intervals: the merged spans, end points within the resolution of Time
 IntervalsFailed(tb, e) ==
@@ -243,43 +249,44 @@ TaiNames(e) ==
   IF e.ev \in {"call", "f0", "phasepol"} /\ \E j \in 1..Len(TimesOf(e)) : ~TaiOK(TimesOf(e)[j])
   THEN {"assume-tai"} ELSE {}
 
-Failed(e, pr) ==
-  IF e.ev = "load" THEN LoadFailed(e, pr)
+\* tb: the table the event is about (for "load": the table just built from its text)
+Failed(e, tb) ==
+  IF e.ev = "load" THEN LoadFailed(e, tb)
   ELSE IF e.ev = "subset" THEN {}
-  ELSE IF cur.rows = <<>> THEN {"ambiguous:no-table"}
+  ELSE IF tb.rows = <<>> THEN {"ambiguous:no-table"}
   ELSE TaiNames(e) \cup
-       (IF e.ev = "call" THEN CallFailed(cur, e)
-        ELSE IF e.ev = "f0" THEN F0Failed(cur, e)
-        ELSE IF e.ev = "phasepol" THEN PolFailed(cur, e)
-        ELSE IF e.ev = "time_at" THEN TimeAtFailed(cur, e)
-        ELSE IF e.ev = "intervals" THEN IntervalsFailed(cur, e)
+       (IF e.ev = "call" THEN CallFailed(tb, e)
+        ELSE IF e.ev = "f0" THEN F0Failed(tb, e)
+        ELSE IF e.ev = "phasepol" THEN PolFailed(tb, e)
+        ELSE IF e.ev = "time_at" THEN TimeAtFailed(tb, e)
+        ELSE IF e.ev = "intervals" THEN IntervalsFailed(tb, e)
         ELSE {"unknown-event"})
 
 (***************************************************************************)
-(* The trace machine: one event per step                                   *)
+(* The trace machine: one event per step.  The new table and the verdict   *)
+(* are state variables, so that TLC computes each of them exactly once per *)
+(* event (a LET at action level would be re-evaluated at every use).       *)
 (***************************************************************************)
-TraceInit == l = 1 /\ nbad = 0 /\ full = NoTable /\ cur = NoTable /\ stats = [samples |-> 0]
 Samples(e) == IF e.ev \in {"call", "f0"} THEN Len(e.t)
               ELSE IF e.ev = "phasepol" THEN Len(e.xd) ELSE 1
+TraceInit == /\ l = 1 /\ nbad = 0 /\ full = NoTable /\ cur = NoTable
+             /\ verdict = {} /\ stats = [samples |-> 0]
 TraceNext ==
   \/ /\ l <= NEvents
-     /\ LET e == Trace[l]
-            pr == IF e.ev = "load" THEN ParsedRows(e) ELSE [ok |-> FALSE, rows |-> <<>>]
-            f == Failed(e, pr)
-        IN /\ Report(l, e, f)
-           /\ nbad' = nbad + (IF f = {} THEN 0 ELSE 1)
-           /\ IF e.ev = "load"
-              THEN LET tb == Table(pr.rows) IN full' = tb /\ cur' = tb
-              ELSE IF e.ev = "subset"
-              THEN /\ cur' = Table([i \in 1..Len(e.rows) |-> full.rows[e.rows[i]]])
-                   /\ UNCHANGED full
-              ELSE UNCHANGED <<full, cur>>
-           /\ stats' = [samples |-> stats.samples + Samples(e)]
+     /\ full' = (IF Trace[l].ev = "load" THEN LoadTable(Trace[l]) ELSE full)
+     /\ cur' = (IF Trace[l].ev = "load" THEN full'
+                ELSE IF Trace[l].ev = "subset"
+                THEN Table([i \in 1..Len(Trace[l].rows) |-> full.rows[Trace[l].rows[i]]], TRUE, Len(Trace[l].rows))
+                ELSE cur)
+     /\ verdict' = Failed(Trace[l], cur')
+     /\ Report(l, Trace[l], verdict')
+     /\ nbad' = nbad + (IF verdict' = {} THEN 0 ELSE 1)
+     /\ stats' = [samples |-> stats.samples + Samples(Trace[l])]
      /\ l' = l + 1
   \/ /\ l = NEvents + 1
      /\ Summary(NEvents, nbad)
      /\ l' = l + 1
-     /\ UNCHANGED <<nbad, full, cur, stats>>
-TraceSpec == TraceInit /\ [][TraceNext]_<<l, nbad, full, cur, stats>>
+     /\ UNCHANGED <<nbad, full, cur, verdict, stats>>
+TraceSpec == TraceInit /\ [][TraceNext]_<<l, nbad, full, cur, verdict, stats>>
 AllConsumed == TLCGet("stats").diameter >= NEvents + 1
 =============================================================================
